@@ -48,6 +48,20 @@ def cS (mod : String) : Stmt → CEnv → SCode × CEnv
     let m := (ρS env.scopes name).getD name
     let cr := cpE mod (ρS env.scopes) r env.lm
     ([(.getVar m, asp)] ++ cr.1 ++ (arithI op).map (·, asp) ++ [(.setVar m, asp)], { env with lm := cr.2 })
+  | .exprS _ (.ifE isp _ c t (some eb)), env =>
+    let cc := cpE mod (ρS env.scopes) c env.lm
+    let after := freshLabel mod cc.2 "if_after"
+    let els := freshLabel mod after.2 "else"
+    let ct := cB mod t { env with lm := els.2 }
+    let ce := cB mod eb ct.2
+    (cc.1 ++ [(.jumpIfFalse els.1, isp)] ++ ct.1 ++ [(.jump after.1, isp), (.label els.1, isp)] ++ ce.1 ++
+      [(.label after.1, isp)], ce.2)
+  | .exprS _ (.ifE isp _ c t none), env =>
+    let cc := cpE mod (ρS env.scopes) c env.lm
+    let after := freshLabel mod cc.2 "if_after"
+    let els := freshLabel mod after.2 "else"
+    let ct := cB mod t { env with lm := els.2 }
+    (cc.1 ++ [(.jumpIfFalse after.1, isp)] ++ ct.1 ++ [(.jump after.1, isp), (.label after.1, isp)], ct.2)
   | .whileS sp c body, env =>
     let head := freshLabel mod env.lm "loop_head"
     let after := freshLabel mod head.2 "loop_end"
@@ -75,6 +89,8 @@ def okS : Stmt → Bool
   | .letS _ _ _ needsCast _ e => !needsCast && pureE e
   | .exprS _ (.assign _ none (.ident _ _ _ false _ _) r) => pureE r
   | .exprS _ (.assign _ (some op) (.ident _ _ _ false _ _) r) => !isLogical op && pureE r
+  | .exprS _ (.ifE _ ty c t (some eb)) => ty.isNull && pureE c && okB t && okB eb
+  | .exprS _ (.ifE _ ty c t none) => ty.isNull && pureE c && okB t
   | .whileS _ c body => pureE c && okB body
   | _ => false
 def okSs : List Stmt → Bool
@@ -89,6 +105,8 @@ mutual
 def depthS : Stmt → Nat
   | .letS _ _ _ _ _ e => depthE e + 2
   | .exprS _ (.assign _ _ _ r) => depthE r + 2
+  | .exprS _ (.ifE _ _ c t (some eb)) => max (depthE c) (max (depthBS t) (depthBS eb)) + 2
+  | .exprS _ (.ifE _ _ c t none) => max (depthE c) (depthBS t) + 2
   | .whileS _ c body => max (depthE c) (depthBS body) + 1
   | _ => 1
 def depthSs : List Stmt → Nat
@@ -107,6 +125,14 @@ mutual
 def wsS (mod : String) : Stmt → CEnv → Bool
   | .letS _ _ _ _ _ e, env => resolved env.scopes (varsE e)
   | .exprS _ (.assign _ _ (.ident _ _ name _ _ _) r), env => resolved env.scopes (name :: varsE r)
+  | .exprS _ (.ifE _ _ c t (some eb)), env =>
+    resolved env.scopes (varsE c) &&
+      wsB mod t { env with lm := (freshLabel mod (freshLabel mod (cpE mod (ρS env.scopes) c env.lm).2 "if_after").2 "else").2 } &&
+      wsB mod eb (cB mod t { env with lm :=
+        (freshLabel mod (freshLabel mod (cpE mod (ρS env.scopes) c env.lm).2 "if_after").2 "else").2 }).2
+  | .exprS _ (.ifE _ _ c t none), env =>
+    resolved env.scopes (varsE c) &&
+      wsB mod t { env with lm := (freshLabel mod (freshLabel mod (cpE mod (ρS env.scopes) c env.lm).2 "if_after").2 "else").2 }
   | .whileS _ c body, env =>
     resolved env.scopes (varsE c) &&
       wsB mod body { env with lm := (cpE mod (ρS env.scopes) c
@@ -236,15 +262,22 @@ theorem resolved_cons {scopes x xs} (h : Frag.resolved scopes (x :: xs) = true) 
 
 theorem depthS_pos (st : Stmt) : 1 ≤ Frag.depthS st := by
   cases st <;> try (simp [Frag.depthS]; done)
-  case exprS sp e => cases e <;> simp [Frag.depthS]
+  case exprS sp e =>
+    cases e <;> try (simp [Frag.depthS]; done)
+    case ifE isp ty c t el => cases el <;> simp [Frag.depthS]
 
-/-- Inversion of `okS` on expression statements: they are assignments to a local variable. -/
+/-- Inversion of `okS` on expression statements: an assignment to a local variable, or an
+`if` statement over statement blocks. -/
 theorem okS_exprS_inv (sp : Span) (e : Expr) (h : Frag.okS (.exprS sp e) = true) :
-    ∃ asp op isp ity name isFn isSing r,
+    (∃ asp op isp ity name isFn isSing r,
       e = .assign asp op (.ident isp ity name false isFn isSing) r ∧ Frag.pureE r = true ∧
-      (∀ o, op = some o → Frag.isLogical o = false) := by
+      (∀ o, op = some o → Frag.isLogical o = false)) ∨
+    (∃ isp ty c t eb, e = .ifE isp ty c t (some eb) ∧ ty.isNull = true ∧ Frag.pureE c = true ∧
+      Frag.okB t = true ∧ Frag.okB eb = true) ∨
+    (∃ isp ty c t, e = .ifE isp ty c t none ∧ ty.isNull = true ∧ Frag.pureE c = true ∧ Frag.okB t = true) := by
   cases e <;> try (simp [Frag.okS] at h; done)
   case assign asp op l r =>
+    left
     cases op <;> cases l <;> try (simp [Frag.okS] at h; done)
     · rename_i isp ity name isGlobal isFn isSing
       cases isGlobal <;> simp [Frag.okS] at h
@@ -252,13 +285,26 @@ theorem okS_exprS_inv (sp : Span) (e : Expr) (h : Frag.okS (.exprS sp e) = true)
     · rename_i o isp ity name isGlobal isFn isSing
       cases isGlobal <;> simp [Frag.okS] at h
       exact ⟨asp, some o, isp, ity, name, isFn, isSing, r, rfl, h.2, by simp [h.1]⟩
+  case ifE isp ty c t el =>
+    right
+    cases el with
+    | some eb =>
+      left
+      simp only [Frag.okS, Bool.and_eq_true] at h
+      exact ⟨isp, ty, c, t, eb, rfl, h.1.1.1, h.1.1.2, h.1.2, h.2⟩
+    | none =>
+      right
+      simp only [Frag.okS, Bool.and_eq_true] at h
+      exact ⟨isp, ty, c, t, rfl, h.1.1, h.1.2, h.2⟩
 
 theorem compile_stmt : ∀ (fuel : Nat),
     (∀ (st : Stmt) (cs : CState), Frag.okS st = true → Frag.depthS st ≤ fuel → CompS fuel st cs) ∧
     (∀ (ss : List Stmt) (cs : CState), Frag.okSs ss = true → Frag.depthSs ss ≤ fuel → CompSs fuel ss cs) ∧
     (∀ (b : Block) (cs : CState), Frag.okB b = true → Frag.depthBS b ≤ fuel → CompBS fuel b cs) := by
   intro fuel
-  induction fuel with
+  induction fuel using Nat.strongRecOn with
+  | _ fuel ihAll =>
+  cases fuel with
   | zero =>
     refine ⟨?_, ?_, ?_⟩
     · intro st cs _ hd
@@ -266,8 +312,8 @@ theorem compile_stmt : ∀ (fuel : Nat),
       omega
     · intro ss cs _ hd; cases ss <;> simp [Frag.depthSs] at hd
     · intro b cs _ hd; obtain ⟨_, _, _, _⟩ := b; simp [Frag.depthBS] at hd
-  | succ fuel ih =>
-    obtain ⟨ihS, ihSs, ihB⟩ := ih
+  | succ fuel =>
+    obtain ⟨ihS, ihSs, ihB⟩ := ihAll fuel (Nat.lt_succ_self _)
     refine ⟨?_, ?_, ?_⟩
     · intro st cs hs hd L c0 env hws
       cases st
@@ -291,33 +337,73 @@ theorem compile_stmt : ∀ (fuel : Nat),
         simp only [List.append_assoc]
         rfl
       case exprS sp e =>
-        obtain ⟨asp, op, isp, ity, name, isFn, isSing, r, rfl, hr, hlog⟩ := okS_exprS_inv sp e hs
-        simp only [Frag.depthS] at hd
-        obtain ⟨f', rfl⟩ : ∃ f', fuel = f' + 1 := ⟨fuel - 1, by have := depthE_pos r; omega⟩
-        simp only [Frag.wsS] at hws
-        obtain ⟨hname, hvr⟩ := resolved_cons hws
-        cases op with
-        | none =>
+        rcases okS_exprS_inv sp e hs with ⟨asp, op, isp, ity, name, isFn, isSing, r, rfl, hr, hlog⟩ |
+          ⟨isp, ty, cnd, t, eb, rfl, hty, hcnd, ht, heb⟩ | ⟨isp, ty, cnd, t, rfl, hty, hcnd, ht⟩
+        · simp only [Frag.depthS] at hd
+          obtain ⟨f', rfl⟩ : ∃ f', fuel = f' + 1 := ⟨fuel - 1, by have := depthE_pos r; omega⟩
+          simp only [Frag.wsS] at hws
+          obtain ⟨hname, hvr⟩ := resolved_cons hws
+          cases op with
+          | none =>
+            rw [compileStmt, cS]
+            refine bind_run _ _ _ (updS cs L (c0 ++ _) _) () _ ?_ (by simp [Expr.ty, Ty.isNull]; rfl)
+            rw [compileExpr]
+            refine bind_run _ _ _ _ _ _ (getMangled_run_S _ _ _ _ _) ?_
+            simp only [Bool.false_eq_true, if_false]
+            refine bind_run _ _ _ _ _ _ (compileExpr_pure_S f' r cs L c0 env hr (by omega) hvr) ?_
+            rw [emit_run_S]
+            simp only [List.append_assoc]
+          | some o =>
+            have hlog := hlog o rfl
+            rw [compileStmt, cS]
+            refine bind_run _ _ _ (updS cs L (c0 ++ _) _) () _ ?_ (by simp [Expr.ty, Ty.isNull]; rfl)
+            rw [compileExpr]
+            refine bind_run _ _ _ _ _ _ (getMangled_run_S _ _ _ _ _) ?_
+            simp only [Bool.false_eq_true, if_false]
+            refine bind_run _ _ _ _ _ _ (emit_run_S _ _ _ _ _ _) ?_
+            refine bind_run _ _ _ _ _ _ (compileExpr_pure_S f' r cs L _ env hr (by omega) hvr) ?_
+            refine bind_run _ _ _ _ _ _ (arith_run_S _ _ _ _ _ _ hlog) ?_
+            rw [emit_run_S]
+            simp only [List.append_assoc, List.cons_append, List.nil_append]
+        · -- `if c { … } else { … }`
+          simp only [Frag.depthS] at hd
+          obtain ⟨f', rfl⟩ : ∃ f', fuel = f' + 1 := ⟨fuel - 1, by have := depthE_pos cnd; omega⟩
+          simp only [Frag.wsS, Bool.and_eq_true] at hws
+          obtain ⟨⟨hvc, hwt⟩, hwe⟩ := hws
+          have ihB' := (ihAll f' (by omega)).2.2
           rw [compileStmt, cS]
-          refine bind_run _ _ _ (updS cs L (c0 ++ _) _) () _ ?_ (by simp [Expr.ty, Ty.isNull]; rfl)
+          refine bind_run _ _ _ (updS cs L (c0 ++ _) _) () _ ?_ (by simp [Expr.ty, hty]; rfl)
           rw [compileExpr]
-          refine bind_run _ _ _ _ _ _ (getMangled_run_S _ _ _ _ _) ?_
-          simp only [Bool.false_eq_true, if_false]
-          refine bind_run _ _ _ _ _ _ (compileExpr_pure_S f' r cs L c0 env hr (by omega) hvr) ?_
-          rw [emit_run_S]
-          simp only [List.append_assoc]
-        | some o =>
-          have hlog := hlog o rfl
-          rw [compileStmt, cS]
-          refine bind_run _ _ _ (updS cs L (c0 ++ _) _) () _ ?_ (by simp [Expr.ty, Ty.isNull]; rfl)
-          rw [compileExpr]
-          refine bind_run _ _ _ _ _ _ (getMangled_run_S _ _ _ _ _) ?_
-          simp only [Bool.false_eq_true, if_false]
+          refine bind_run _ _ _ _ _ _ (compileExpr_pure_S f' cnd cs L c0 env hcnd (by omega) hvc) ?_
+          refine bind_run _ _ _ _ _ _ (mangleLabel_run_S _ _ _ _ _) ?_
+          refine bind_run _ _ _ _ _ _ (mangleLabel_run_S _ _ _ _ _) ?_
           refine bind_run _ _ _ _ _ _ (emit_run_S _ _ _ _ _ _) ?_
-          refine bind_run _ _ _ _ _ _ (compileExpr_pure_S f' r cs L _ env hr (by omega) hvr) ?_
-          refine bind_run _ _ _ _ _ _ (arith_run_S _ _ _ _ _ _ hlog) ?_
+          refine bind_run _ _ _ _ _ _ (ihB' t cs ht (by omega) _ _ _ hwt) ?_
+          refine bind_run _ _ _ _ _ _ (emit_run_S _ _ _ _ _ _) ?_
+          simp only []
+          refine bind_run _ _ _ _ _ _ (emit_run_S _ _ _ _ _ _) ?_
+          refine bind_run _ _ _ _ _ _ (ihB' eb cs heb (by omega) _ _ _ hwe) ?_
           rw [emit_run_S]
-          simp only [List.append_assoc, List.cons_append, List.nil_append]
+          simp only [List.append_assoc, List.cons_append, List.nil_append, Option.isSome_some, if_true]
+        · -- `if c { … }`
+          simp only [Frag.depthS] at hd
+          obtain ⟨f', rfl⟩ : ∃ f', fuel = f' + 1 := ⟨fuel - 1, by have := depthE_pos cnd; omega⟩
+          simp only [Frag.wsS, Bool.and_eq_true] at hws
+          obtain ⟨hvc, hwt⟩ := hws
+          have ihB' := (ihAll f' (by omega)).2.2
+          rw [compileStmt, cS]
+          refine bind_run _ _ _ (updS cs L (c0 ++ _) _) () _ ?_ (by simp [Expr.ty, hty]; rfl)
+          rw [compileExpr]
+          refine bind_run _ _ _ _ _ _ (compileExpr_pure_S f' cnd cs L c0 env hcnd (by omega) hvc) ?_
+          refine bind_run _ _ _ _ _ _ (mangleLabel_run_S _ _ _ _ _) ?_
+          refine bind_run _ _ _ _ _ _ (mangleLabel_run_S _ _ _ _ _) ?_
+          refine bind_run _ _ _ _ _ _ (emit_run_S _ _ _ _ _ _) ?_
+          refine bind_run _ _ _ _ _ _ (ihB' t cs ht (by omega) _ _ _ hwt) ?_
+          refine bind_run _ _ _ _ _ _ (emit_run_S _ _ _ _ _ _) ?_
+          simp only []
+          rw [emit_run_S]
+          simp only [List.append_assoc, List.cons_append, List.nil_append, Option.isSome_none, Bool.false_eq_true,
+            if_false]
       case whileS sp c body =>
         simp only [Frag.okS, Bool.and_eq_true] at hs
         obtain ⟨hc, hb⟩ := hs
